@@ -478,7 +478,7 @@ Qed.
 (* days from the absolute epoch to y-m-01 as Date computes them, shifted to the Unix epoch *)
 Definition go_days (y m : Z) : Z :=
   let d := days_since_epoch y + days_before (m - 1) in
-  (if is_leap y && (3 <=? m) then d + 1 else d) + (absolute_to_internal + internal_to_unix) / 86400.
+  (if is_leap y && (3 <=? m) then d + 1 else d) + -106751991073094.
 
 Fixpoint zrange (lo : Z) (n : nat) : list Z :=
   match n with O => [] | S k => lo :: zrange (lo + 1) k end.
@@ -489,23 +489,36 @@ Proof.
   cbn [zrange]. destruct (Z.eq_dec lo x) as [->|Hne]; [left; reflexivity | right; apply IH; lia].
 Qed.
 
-Definition days_check : bool :=
-  forallb (fun q => forallb (fun r => forallb (fun m =>
-     go_days (100 * q + r) m =? days_from_civil (100 * q + r) m 1)
-     (zrange 1 12)) (zrange 0 100)) (zrange 0 100).
+Lemma forallb_zrange (f : Z -> bool) n : forall lo, forallb f (zrange lo n) = true ->
+  forall x, lo <= x < lo + Z.of_nat n -> f x = true.
+Proof.
+  intros lo H x Hx. exact (proj1 (forallb_forall f (zrange lo n)) H x (in_zrange n lo x Hx)).
+Qed.
 
-Lemma days_check_ok : days_check = true.
+(* exhaustive comparison over the years 0..9999 (= 100 q + r) and the twelve months *)
+Definition chk (y m : Z) : bool := go_days y m =? days_from_civil y m 1.
+Definition chk_r (q r : Z) : bool := forallb (chk (100 * q + r)) (zrange 1 12).
+Definition chk_q (q : Z) : bool := forallb (chk_r q) (zrange 0 100).
+Lemma days_check_ok : forallb chk_q (zrange 0 100) = true.
 Proof. vm_compute. reflexivity. Qed.
+
+Lemma chk_q_elim q : chk_q q = true -> forall r, 0 <= r < 0 + Z.of_nat 100 -> chk_r q r = true.
+Proof. unfold chk_q. intros H r Hr. exact (forallb_zrange (chk_r q) 100 0 H r Hr). Qed.
+
+Lemma chk_r_elim q r : chk_r q r = true -> forall m, 1 <= m < 1 + Z.of_nat 12 -> chk (100 * q + r) m = true.
+Proof. unfold chk_r. intros H m Hm. exact (forallb_zrange (chk (100 * q + r)) 12 1 H m Hm). Qed.
 
 Lemma go_days_spec y m : 0 <= y <= 9999 -> 1 <= m <= 12 -> go_days y m = days_from_civil y m 1.
 Proof.
-  intros Hy Hm. pose proof days_check_ok as H. unfold days_check in H.
+  intros Hy Hm.
   assert (Hq : 0 <= y / 100 < 0 + Z.of_nat 100) by (Z.div_mod_to_equations; lia).
   assert (Hr : 0 <= y mod 100 < 0 + Z.of_nat 100) by (Z.div_mod_to_equations; lia).
-  rewrite forallb_forall in H. specialize (H (y / 100) (in_zrange 100 0 _ Hq)).
-  rewrite forallb_forall in H. specialize (H (y mod 100) (in_zrange 100 0 _ Hr)).
-  rewrite forallb_forall in H. specialize (H m (in_zrange 12 1 _ ltac:(lia))).
-  apply Z.eqb_eq in H. replace (100 * (y / 100) + y mod 100) with y in H by (Z.div_mod_to_equations; lia). exact H.
+  assert (Hm' : 1 <= m < 1 + Z.of_nat 12) by lia.
+  assert (Hyy : 100 * (y / 100) + y mod 100 = y) by (Z.div_mod_to_equations; lia).
+  pose proof (forallb_zrange chk_q 100 0 days_check_ok (y / 100) Hq) as H1.
+  pose proof (chk_q_elim _ H1 _ Hr) as H2.
+  pose proof (chk_r_elim _ _ H2 _ Hm') as H3.
+  rewrite Hyy in H3. apply Z.eqb_eq. exact H3.
 Qed.
 
 Lemma days_from_civil_day y m d : days_from_civil y m d = days_from_civil y m 1 + (d - 1).
@@ -520,7 +533,340 @@ Proof.
   rewrite (norm_id mi s 60) by lia. rewrite (norm_id h mi 60) by lia. rewrite (norm_id d h 24) by lia.
   replace (m - 1 + 1) with m by lia.
   rewrite days_from_civil_day, <- (go_days_spec y m Hy Hm). unfold go_days.
-  change ((absolute_to_internal + internal_to_unix) / 86400) with (-106751991886854).
-  change (absolute_to_internal + internal_to_unix) with (-106751991886854 * 86400).
+  change (absolute_to_internal + internal_to_unix) with (-106751991073094 * 86400).
   f_equal. destruct (is_leap y && (3 <=? m)); lia.
 Qed.
+
+(* ---------- the whole loop ---------- *)
+
+Definition st0 : ptime := mkPT 0 (-1) (-1) 0 0 0 0.
+
+Lemma iso_chunks_eq : iso_chunks =
+  [ ([], StdLongYear); ([45%N], StdZeroMonth); ([45%N], StdZeroDay);
+    ([84%N], StdHour); ([58%N], StdZeroMinute); ([58%N], StdZeroSecond) ].
+Proof. reflexivity. Qed.
+
+Lemma iso_tail_eq : iso_tail = [90%N].
+Proof. reflexivity. Qed.
+
+Definition loop_shape (s : str) (st : ptime) : Prop :=
+  exists y1 y2 y3 y4 m1 m2 d1 d2 hh h mi1 mi2 s1 s2 ft ns,
+    s = [y1; y2; y3; y4; 45%N; m1; m2; 45%N; d1; d2; 84%N] ++ hh
+          ++ [58%N; mi1; mi2; 58%N; s1; s2] ++ ft ++ [90%N] /\
+    Forall digit [y1; y2; y3; y4; m1; m2; d1; d2; mi1; mi2; s1; s2] /\
+    hour_text hh h /\ frac_text ft ns /\
+    1 <= two m1 m2 <= 12 /\ h <= 23 /\ two mi1 mi2 <= 59 /\ two s1 s2 <= 59 /\
+    st = mkPT (four y1 y2 y3 y4) (two m1 m2) (two d1 d2) h (two mi1 mi2) (two s1 s2) ns.
+
+Lemma parse_loop_sound s st : parse_loop iso_chunks iso_tail st0 s = Ok st -> loop_shape s st.
+Proof.
+  rewrite iso_chunks_eq, iso_tail_eq. cbn [parse_loop]. change (skip s []) with (Some s). cbv iota.
+  destruct (parse_std StdLongYear st0 s) as [[st1 v1]|c|p] eqn:E1; try discriminate.
+  apply year_iff in E1 as (y1 & y2 & y3 & y4 & -> & Hy1 & Hy2 & Hy3 & Hy4 & ->).
+  destruct (skip v1 [45%N]) as [v1'|] eqn:K1; [|discriminate]. apply skip1_iff in K1 as ->.
+  destruct (parse_std StdZeroMonth _ v1') as [[st2 v2]|c|p] eqn:E2; try discriminate.
+  apply month_iff in E2 as (m1 & m2 & -> & Hm1 & Hm2 & Hmr & ->).
+  destruct (skip v2 [45%N]) as [v2'|] eqn:K2; [|discriminate]. apply skip1_iff in K2 as ->.
+  destruct (parse_std StdZeroDay _ v2') as [[st3 v3]|c|p] eqn:E3; try discriminate.
+  apply day_iff in E3 as (d1 & d2 & -> & Hd1 & Hd2 & ->).
+  destruct (skip v3 [84%N]) as [v3'|] eqn:K3; [|discriminate]. apply skip1_iff in K3 as ->.
+  destruct (parse_std StdHour _ v3') as [[st4 v4]|c|p] eqn:E4; try discriminate.
+  apply hour_iff in E4 as (hh & h & -> & Hh & Hhr & _ & ->).
+  destruct (skip v4 [58%N]) as [v4'|] eqn:K4; [|discriminate]. apply skip1_iff in K4 as ->.
+  destruct (parse_std StdZeroMinute _ v4') as [[st5 v5]|c|p] eqn:E5; try discriminate.
+  apply minute_iff in E5 as (mi1 & mi2 & -> & Hmi1 & Hmi2 & Hmir & ->).
+  destruct (skip v5 [58%N]) as [v5'|] eqn:K5; [|discriminate]. apply skip1_iff in K5 as ->.
+  destruct (parse_std StdZeroSecond _ v5') as [[st6 v6]|c|p] eqn:E6; try discriminate.
+  apply sec_iff in E6 as (s1 & s2 & ft & ns & -> & Hs1 & Hs2 & Hsr & -> & Hfrac).
+  destruct (skip v6 [90%N]) as [v6'|] eqn:K6; [|discriminate]. apply skip1_iff in K6 as ->.
+  destruct v6' as [|x r]; cbn [is_nil]; [|discriminate].
+  intro H; inversion H; subst st; clear H.
+  cbn [p_year p_month p_day p_hour p_min p_sec p_nsec set_sec st0] in *.
+  exists y1, y2, y3, y4, m1, m2, d1, d2, hh, h, mi1, mi2, s1, s2, ft, ns.
+  split; [reflexivity|].
+  split; [repeat (constructor; [assumption|]); constructor|].
+  split; [assumption|].
+  split.
+  { destruct Hfrac as [(-> & -> & _)|(sep & d & D' & -> & Hsep & HD & _ & ->)]; constructor; assumption. }
+  repeat (split; [assumption|]). reflexivity.
+Qed.
+
+Lemma head_not_digit_cons c r : ~ digit c -> head_not_digit (c :: r).
+Proof. intro H. unfold head_not_digit, is_digit_at. cbn [nth_error]. apply is_digit_false; assumption. Qed.
+
+Lemma parse_loop_complete s st : loop_shape s st -> parse_loop iso_chunks iso_tail st0 s = Ok st.
+Proof.
+  intros (y1 & y2 & y3 & y4 & m1 & m2 & d1 & d2 & hh & h & mi1 & mi2 & s1 & s2 & ft & ns &
+          -> & Hdig & Hh & Hft & Hmr & Hhr & Hmir & Hsr & ->).
+  inversion Hdig as [|? ? Hy1 T1]; subst. inversion T1 as [|? ? Hy2 T2]; subst.
+  inversion T2 as [|? ? Hy3 T3]; subst. inversion T3 as [|? ? Hy4 T4]; subst.
+  inversion T4 as [|? ? Hm1 T5]; subst. inversion T5 as [|? ? Hm2 T6]; subst.
+  inversion T6 as [|? ? Hd1 T7]; subst. inversion T7 as [|? ? Hd2 T8]; subst.
+  inversion T8 as [|? ? Hmi1 T9]; subst. inversion T9 as [|? ? Hmi2 T10]; subst.
+  inversion T10 as [|? ? Hs1 T11]; subst. inversion T11 as [|? ? Hs2 _]; subst.
+  clear Hdig T1 T2 T3 T4 T5 T6 T7 T8 T9 T10 T11.
+  rewrite iso_chunks_eq, iso_tail_eq. cbn [app].
+  set (v6 := ft ++ [90%N]).
+  set (v5 := s1 :: s2 :: v6). set (v4 := mi1 :: mi2 :: 58%N :: v5).
+  set (v3 := hh ++ 58%N :: v4). set (v2 := d1 :: d2 :: 84%N :: v3). set (v1 := m1 :: m2 :: 45%N :: v2).
+  set (t1 := mkPT (four y1 y2 y3 y4) (-1) (-1) 0 0 0 0).
+  set (t2 := mkPT (four y1 y2 y3 y4) (two m1 m2) (-1) 0 0 0 0).
+  set (t3 := mkPT (four y1 y2 y3 y4) (two m1 m2) (two d1 d2) 0 0 0 0).
+  set (t4 := mkPT (four y1 y2 y3 y4) (two m1 m2) (two d1 d2) h 0 0 0).
+  set (t5 := mkPT (four y1 y2 y3 y4) (two m1 m2) (two d1 d2) h (two mi1 mi2) 0 0).
+  set (t6 := mkPT (four y1 y2 y3 y4) (two m1 m2) (two d1 d2) h (two mi1 mi2) (two s1 s2) ns).
+  assert (E1 : parse_std StdLongYear st0 (y1 :: y2 :: y3 :: y4 :: 45%N :: v1) = Ok (t1, 45%N :: v1)).
+  { apply year_iff. exists y1, y2, y3, y4. auto 10. }
+  assert (E2 : parse_std StdZeroMonth t1 v1 = Ok (t2, 45%N :: v2)).
+  { apply month_iff. exists m1, m2. auto 10. }
+  assert (E3 : parse_std StdZeroDay t2 v2 = Ok (t3, 84%N :: v3)).
+  { apply day_iff. exists d1, d2. auto 10. }
+  assert (E4 : parse_std StdHour t3 v3 = Ok (t4, 58%N :: v4)).
+  { apply hour_iff. exists hh, h. split; [reflexivity|]. split; [assumption|]. split; [assumption|].
+    split; [|reflexivity]. intros _. apply head_not_digit_cons. unfold digit. lia. }
+  assert (E5 : parse_std StdZeroMinute t4 v4 = Ok (t5, 58%N :: v5)).
+  { apply minute_iff. exists mi1, mi2. auto 10. }
+  assert (E6 : parse_std StdZeroSecond t5 v5 = Ok (t6, [90%N])).
+  { apply sec_iff. exists s1, s2, ft, ns. split; [reflexivity|]. do 3 (split; [assumption|]).
+    split; [reflexivity|]. destruct Hft as [|sep d ds Hsep HD].
+    - left. auto.
+    - right. exists sep, d, ds. split; [reflexivity|]. split; [assumption|]. split; [assumption|].
+      split; [|reflexivity]. apply head_not_digit_cons. unfold digit. lia. }
+  cbn [parse_loop skip]. rewrite E1. cbn [skip]. rewrite N.eqb_refl, E2. cbn [skip]. rewrite N.eqb_refl, E3.
+  cbn [skip]. rewrite N.eqb_refl, E4. cbn [skip]. rewrite N.eqb_refl, E5. cbn [skip]. rewrite N.eqb_refl, E6.
+  reflexivity.
+Qed.
+
+(* ---------- parse_time / parse_expiry against wf_expiry ---------- *)
+
+Lemma month_length_le y m : month_length y m <= 31.
+Proof.
+  unfold month_length. destruct (m =? 2); [destruct (leap_year y); lia|].
+  destruct ((m =? 4) || (m =? 6) || (m =? 9) || (m =? 11)); lia.
+Qed.
+
+Lemma frac_text_range ft ns : frac_text ft ns -> 0 <= ns < 1000000000.
+Proof. intros [|sep d ds _ HD]; [lia | apply frac_ns_range; assumption]. Qed.
+
+Lemma digits12 (y1 y2 y3 y4 m1 m2 d1 d2 mi1 mi2 s1 s2 : N) :
+  Forall digit [y1; y2; y3; y4; m1; m2; d1; d2; mi1; mi2; s1; s2] ->
+  0 <= four y1 y2 y3 y4 <= 9999 /\ 0 <= two m1 m2 <= 99 /\ 0 <= two d1 d2 <= 99 /\
+  0 <= two mi1 mi2 <= 99 /\ 0 <= two s1 s2 <= 99.
+Proof.
+  intro Hdig.
+  inversion Hdig as [|? ? Hy1 T1]; subst. inversion T1 as [|? ? Hy2 T2]; subst.
+  inversion T2 as [|? ? Hy3 T3]; subst. inversion T3 as [|? ? Hy4 T4]; subst.
+  inversion T4 as [|? ? Hm1 T5]; subst. inversion T5 as [|? ? Hm2 T6]; subst.
+  inversion T6 as [|? ? Hd1 T7]; subst. inversion T7 as [|? ? Hd2 T8]; subst.
+  inversion T8 as [|? ? Hmi1 T9]; subst. inversion T9 as [|? ? Hmi2 T10]; subst.
+  inversion T10 as [|? ? Hs1 T11]; subst. inversion T11 as [|? ? Hs2 _]; subst.
+  split; [apply four_range; assumption|]. repeat split; apply two_range; assumption.
+Qed.
+
+Theorem parse_time_wf s sec nsec : parse_time s = Ok (sec, nsec) <-> wf_expiry s sec nsec.
+Proof.
+  unfold parse_time. fold st0. split.
+  - destruct (parse_loop iso_chunks iso_tail st0 s) as [st|c|p] eqn:E; try discriminate.
+    apply parse_loop_sound in E.
+    destruct E as (y1 & y2 & y3 & y4 & m1 & m2 & d1 & d2 & hh & h & mi1 & mi2 & s1 & s2 & ft & ns &
+          -> & Hdig & Hh & Hft & Hmr & Hhr & Hmir & Hsr & ->).
+    cbn [p_year p_month p_day p_hour p_min p_sec p_nsec].
+    destruct (digits12 _ _ _ _ _ _ _ _ _ _ _ _ Hdig) as (HY & HM & HD & HMI & HS).
+    pose proof (hour_text_range _ _ Hh) as HH. pose proof (frac_text_range _ _ Hft) as HN.
+    destruct (two m1 m2 <? 0) eqn:Em; [lia|]. destruct (two d1 d2 <? 0) eqn:Ed; [lia|].
+    rewrite days_in_spec by lia.
+    destruct ((two d1 d2 <? 1) || (month_length (four y1 y2 y3 y4) (two m1 m2) <? two d1 d2)) eqn:Edr; [discriminate|].
+    rewrite go_date_spec by lia. intro H; inversion H; subst sec nsec; clear H.
+    exists y1, y2, y3, y4, m1, m2, d1, d2, hh, h, mi1, mi2, s1, s2, ft.
+    split; [reflexivity|]. split; [assumption|]. split; [assumption|]. split; [assumption|].
+    split; [assumption|]. split; [lia|]. split; [assumption|]. split; [assumption|]. split; [assumption|]. reflexivity.
+  - intros (y1 & y2 & y3 & y4 & m1 & m2 & d1 & d2 & hh & h & mi1 & mi2 & s1 & s2 & ft &
+          -> & Hdig & Hh & Hft & Hmr & Hdr & Hhr & Hmir & Hsr & ->).
+    rewrite (parse_loop_complete _ (mkPT (four y1 y2 y3 y4) (two m1 m2) (two d1 d2) h (two mi1 mi2) (two s1 s2) nsec)).
+    + cbn [p_year p_month p_day p_hour p_min p_sec p_nsec].
+      destruct (digits12 _ _ _ _ _ _ _ _ _ _ _ _ Hdig) as (HY & HM & HD & HMI & HS).
+      pose proof (hour_text_range _ _ Hh) as HH. pose proof (frac_text_range _ _ Hft) as HN.
+      destruct (two m1 m2 <? 0) eqn:Em; [lia|]. destruct (two d1 d2 <? 0) eqn:Ed; [lia|].
+      rewrite days_in_spec by lia.
+      destruct ((two d1 d2 <? 1) || (month_length (four y1 y2 y3 y4) (two m1 m2) <? two d1 d2)) eqn:Edr; [lia|].
+      rewrite go_date_spec by lia. reflexivity.
+    + exists y1, y2, y3, y4, m1, m2, d1, d2, hh, h, mi1, mi2, s1, s2, ft, nsec.
+      split; [reflexivity|]. repeat (split; [assumption|]). reflexivity.
+Qed.
+
+Theorem parse_expiry_wf s sec nsec : parse_expiry s = Some (sec, nsec) <-> wf_expiry s sec nsec.
+Proof.
+  rewrite <- parse_time_wf. unfold parse_expiry.
+  destruct (parse_time s) as [[a b]|c|p]; split; intro H; try discriminate; inversion H; reflexivity.
+Qed.
+
+Theorem parse_expiry_ns_wf s t : parse_expiry_ns s = Some t <-> wf_expiry_ns s t.
+Proof.
+  unfold parse_expiry_ns, wf_expiry_ns. split.
+  - destruct (parse_expiry s) as [[a b]|] eqn:E; [|discriminate].
+    intro H; inversion H; subst. exists a, b. split; [apply parse_expiry_wf; assumption | reflexivity].
+  - intros (a & b & Hw & ->). apply parse_expiry_wf in Hw. rewrite Hw. reflexivity.
+Qed.
+
+(* a string denotes at most one instant *)
+Theorem wf_expiry_functional s a b a' b' : wf_expiry s a b -> wf_expiry s a' b' -> a = a' /\ b = b'.
+Proof.
+  intros H1 H2. apply parse_expiry_wf in H1, H2. rewrite H1 in H2. inversion H2; auto.
+Qed.
+
+(* ---------- time.Until: saturation keeps the sign ---------- *)
+
+Lemma time_sub_sign t u : (time_sub t u <? 0) = (t <? u).
+Proof.
+  unfold time_sub, min_duration, max_duration.
+  destruct ((-9223372036854775808 <=? t - u) && (t - u <=? 9223372036854775807)) eqn:E; [lia|].
+  destruct (t <? u) eqn:E2; lia.
+Qed.
+
+Lemma time_sub_exact t u : -9223372036854775808 <= t - u <= 9223372036854775807 -> time_sub t u = t - u.
+Proof.
+  intro H. unfold time_sub, min_duration, max_duration.
+  destruct ((-9223372036854775808 <=? t - u) && (t - u <=? 9223372036854775807)) eqn:E; [reflexivity | lia].
+Qed.
+
+(* ---------- VerifyLayoutExpiration ---------- *)
+
+Theorem verify_ok_iff now s :
+  verify_expiration now s = Ok tt <-> exists t, parse_expiry_ns s = Some t /\ now <= t.
+Proof.
+  unfold verify_expiration, parse_expiry_ns, parse_expiry, time_until.
+  destruct (parse_time s) as [t|c|p].
+  - rewrite time_sub_sign. split.
+    + destruct (ns_of t <? now) eqn:E; [discriminate|]. intros _. exists (ns_of t). split; [reflexivity | lia].
+    + intros (t' & H & Hle). inversion H; subst. destruct (ns_of t <? now) eqn:E; [lia | reflexivity].
+  - split; [discriminate | intros (t & H & _); discriminate].
+  - split; [discriminate | intros (t & H & _); discriminate].
+Qed.
+
+Theorem verify_accept_implies_unexpired now s :
+  verify_expiration now s = Ok tt -> exists t, parse_expiry_ns s = Some t /\ now <= t.
+Proof. apply verify_ok_iff. Qed.
+
+Theorem verify_expired_rejected now s t :
+  parse_expiry_ns s = Some t -> t < now -> verify_expiration now s = Err e_expired.
+Proof.
+  unfold verify_expiration, parse_expiry_ns, parse_expiry, time_until.
+  destruct (parse_time s) as [t'|c|p]; try discriminate.
+  intros H Hlt. inversion H; subst. rewrite time_sub_sign.
+  destruct (ns_of t' <? now) eqn:E; [reflexivity | lia].
+Qed.
+
+Lemma parse_time_no_panic s p : parse_time s <> Panic p.
+Proof.
+  destruct (parse_time s) as [[a b]|c|q] eqn:E; try discriminate.
+  exfalso. unfold parse_time in E.
+  destruct (parse_loop iso_chunks iso_tail _ s) as [st|c|q'] eqn:EL.
+  - destruct ((_ <? 1) || _); discriminate.
+  - discriminate.
+  - clear E. revert EL. rewrite iso_chunks_eq, iso_tail_eq.
+    assert (Hstd : forall k st v q0, parse_std k st v <> Panic q0).
+    { intros k st v q0. destruct k; cbn [parse_std].
+      - destruct (_ || _); [discriminate|]. destruct (atoi _); discriminate.
+      - destruct (getnum v true) as [[m v1]|]; [|discriminate]. destruct (_ || _); discriminate.
+      - destruct (getnum v true) as [[m v1]|]; discriminate.
+      - destruct (getnum v false) as [[m v1]|]; [|discriminate]. destruct (_ || _); discriminate.
+      - destruct (getnum v true) as [[m v1]|]; [|discriminate]. destruct (_ || _); discriminate.
+      - destruct (getnum v true) as [[m v1]|]; [|discriminate]. destruct (_ || _); [discriminate|].
+        destruct v1 as [|c0 [|c1 r]]; try discriminate.
+        destruct (_ && _); [|discriminate].
+        unfold parse_nanoseconds. destruct (negb _); [discriminate|].
+        destruct (Nat.ltb _ _); (destruct (atoi _); [|discriminate]); destruct (_ <? 0); discriminate. }
+    assert (Hloop : forall chunks st v q0, parse_loop chunks [90%N] st v <> Panic q0).
+    { induction chunks as [|[pre k] rest IH]; intros st v q0; cbn [parse_loop].
+      - destruct (skip v [90%N]) as [v'|]; [|discriminate]. destruct (is_nil v'); discriminate.
+      - destruct (skip v pre) as [v'|]; [|discriminate].
+        destruct (parse_std k st v') as [[st' v'']|c|q1] eqn:Es; [apply IH | discriminate |].
+        exfalso. exact (Hstd _ _ _ _ Es). }
+    apply Hloop.
+Qed.
+
+Theorem verify_unparsable_rejected now s :
+  parse_expiry_ns s = None -> exists c, verify_expiration now s = Err c.
+Proof.
+  unfold verify_expiration, parse_expiry_ns, parse_expiry.
+  destruct (parse_time s) as [t|c|p] eqn:E; try discriminate.
+  - intros _. exists c. reflexivity.
+  - exfalso. exact (parse_time_no_panic _ _ E).
+Qed.
+
+Theorem verify_no_panic now s p : verify_expiration now s <> Panic p.
+Proof.
+  unfold verify_expiration. destruct (parse_time s) as [t|c|q] eqn:E.
+  - destruct (_ <? 0); discriminate.
+  - discriminate.
+  - exfalso. exact (parse_time_no_panic _ _ E).
+Qed.
+
+Theorem verify_monotone now now' s :
+  verify_expiration now s = Ok tt -> now' <= now -> verify_expiration now' s = Ok tt.
+Proof.
+  intros H Hle. apply verify_ok_iff in H as (t & Hp & Ht). apply verify_ok_iff. exists t. split; [assumption | lia].
+Qed.
+
+(* the property in one statement: accepted exactly when the string is a well-formed UTC
+   timestamp whose instant is not before the clock reading *)
+Theorem verify_ok_wf now s :
+  verify_expiration now s = Ok tt <-> exists t, wf_expiry_ns s t /\ now <= t.
+Proof.
+  rewrite verify_ok_iff. split; intros (t & H & Hle); exists t; (split; [apply parse_expiry_ns_wf; assumption | assumption]).
+Qed.
+
+Theorem layout_const_ok : layout_text iso_chunks iso_tail = bs "2006-01-02T15:04:05Z".
+Proof. reflexivity. Qed.
+
+(* ---------- the fraction is the decimal fraction truncated to nanoseconds ---------- *)
+
+Lemma digits_val_shift r : forall x, digits_val x r = x * p10 (length r) + digits_val 0 r.
+Proof.
+  induction r as [|c r IH]; intro x; [unfold p10; cbn; lia|].
+  rewrite !digits_val_cons. rewrite (IH (x * 10 + dv c)), (IH (0 * 10 + dv c)).
+  cbn [length]. rewrite p10_S. ring.
+Qed.
+
+Lemma digits_val_app x a b : digits_val x (a ++ b) = digits_val (digits_val x a) b.
+Proof. unfold digits_val. apply fold_left_app. Qed.
+
+Theorem frac_ns_floor ds : Forall digit ds ->
+  frac_ns 100000000 ds = (digits_val 0 ds * 1000000000) / p10 (length ds).
+Proof.
+  intro Hd. rewrite frac_ns_first9.
+  rewrite <- (firstn_skipn 9 ds) at 3 4. set (F := firstn 9 ds). set (R := skipn 9 ds).
+  assert (HF : Forall digit F) by (apply Forall_firstn; assumption).
+  assert (HR : Forall digit R).
+  { apply Forall_forall. intros x Hx. apply (proj1 (Forall_forall _ _) Hd).
+    rewrite <- (firstn_skipn 9 ds). apply in_or_app. right. exact Hx. }
+  rewrite digits_val_app, (digits_val_shift R), app_length, p10_add.
+  pose proof (digits_val_ge R 0 ltac:(lia) HR) as HR0.
+  pose proof (digits_val_bound R 0 ltac:(lia) HR) as HR1.
+  pose proof (p10_pos (length F)) as PF. pose proof (p10_pos (length R)) as PR.
+  pose proof (p10_pos (9 - length F)) as P9.
+  assert (Hl : (length F <= 9)%nat) by apply firstn_le_length.
+  assert (Hm : p10 (length F) * p10 (9 - length F) = 1000000000).
+  { rewrite <- p10_add. replace (length F + (9 - length F))%nat with 9%nat by lia. reflexivity. }
+  destruct (Nat.eq_dec (length F) 9) as [E9|N9].
+  - (* nine digits used, the rest is cut off *)
+    rewrite E9 in *. change (p10 (9 - 9)) with 1 in *. change (p10 9) with 1000000000 in *.
+    apply Z.div_unique with (r := digits_val 0 R * 1000000000); nia.
+  - (* fewer than nine digits: R is empty *)
+    assert (ER : R = []).
+    { subst R F. apply skipn_all2. rewrite firstn_length in N9, Hl. lia. }
+    rewrite ER in *. cbn [length digits_val fold_left] in *. change (p10 0) with 1 in *.
+    replace ((digits_val 0 F * 1 + 0) * 1000000000)
+      with ((digits_val 0 F * p10 (9 - length F)) * (p10 (length F) * 1)) by (rewrite <- Hm; ring).
+    rewrite Z.div_mul by lia. reflexivity.
+Qed.
+
+Lemma p10_pow m : p10 m = 10 ^ Z.of_nat m.
+Proof.
+  induction m as [|m IH]; [reflexivity|].
+  rewrite p10_S, IH, Nat2Z.inj_succ, Z.pow_succ_r by lia. ring.
+Qed.
+
+Theorem frac_ns_truncates ds : Forall digit ds ->
+  frac_ns 100000000 ds = (dec_value ds * 1000000000) / 10 ^ Z.of_nat (length ds).
+Proof. intro H. rewrite <- p10_pow. exact (frac_ns_floor ds H). Qed.
